@@ -58,7 +58,7 @@ def t_FUNCTION(t):
 
 
 def t_XLERROR(t):
-    r'\#[A-Z0-9\/_]+(\!|\?)?'
+    r'\#(N\/A|DIV\/0\!|[A-Z0-9_]+(\!|\?)?)'
     return t
 
 
